@@ -86,10 +86,11 @@ Theorem C20_daemons_stopped_before_cleanup_refuted : daemon_alive_unasked_at_cle
 Proof. exact daemons_stopped_before_cleanup_refuted. Qed.
 Print Assumptions C20_daemons_stopped_before_cleanup_refuted.
 
-(* ... partial: the daemon killer (a root task, hence done before cleanup by C20_cleanup_last) ends, other than by its
-   own failure (F2002), only after its sweep and with every daemon it asked done or abandoned. *)
+(* ... partial: the daemon killer (a root task, hence done before cleanup by C20_cleanup_last) ends, however its body
+   ended, only after its sweep and with every daemon it asked done or abandoned.  (Before the fix c948bdc the sweep itself
+   could die of "dictionary changed size during iteration" — former finding F2002, label SweepFail, now gone.) *)
 Theorem C20_daemons_stopped_before_cleanup_partial : forall s o s', step s (Finish (TRoot RKiller) o) = Some s' ->
-  ph s (TRoot RKiller) = PEnding o -> (forall e, o <> OErr e) ->
+  ph s (TRoot RKiller) = PEnding o ->
   swept s = true /\ forall d, In d (asked s) -> is_done (ph s (TDaemon d)) = true \/ In d (abandoned s).
 Proof. exact killer_finish_partial. Qed.
 Print Assumptions C20_daemons_stopped_before_cleanup_partial.
